@@ -50,17 +50,47 @@ def gen(rng):
     return p
 
 
+def directed(tier):
+    """scenarios that need a specific shape"""
+    out = []
+    # a worker finishes its chunks and leaves on the close() sentinel while the
+    # rest of a chunked map runs on for longer than the map's 10 s lost-worker
+    # timeout: nothing may be reported lost, join() must not be held up
+    out.append({'nproc': 2, 'maxtasks': None, 'threads': True, 'T': 2.0, 'pool_hard': None,
+                'close_delay': 0.3, 'jobs': [
+                    {'kind': 'map', 'tag': 'dm', 'n': 4, 'chunk': 2, 'dur': 0.05,
+                     'durs': [0.05, 0.05, 6.5, 6.5]}]})
+    # slow result callbacks hold the result handler up while workers leave:
+    # their DEATH notices are read after they were reaped
+    out.append({'nproc': 2, 'maxtasks': None, 'threads': True, 'T': 2.0, 'pool_hard': None,
+                'close_delay': 0, 'jobs': [{'kind': 'apply', 'tag': 'long', 'dur': 7.0}] + [
+                    {'kind': 'apply', 'tag': 'sc%d' % i, 'dur': 0.05, 'cb_sleep': 1.3}
+                    for i in range(3)]})
+    if tier != 'quick':
+        out.append({'nproc': 3, 'maxtasks': None, 'threads': True, 'T': 2.0, 'pool_hard': 60,
+                    'close_delay': 0.1, 'jobs': [
+                        {'kind': 'map', 'tag': 'dm', 'n': 9, 'chunk': 3, 'dur': 0.05,
+                         'durs': [0.05] * 6 + [4.5, 4.5, 4.5]},
+                        {'kind': 'apply', 'tag': 'sc0', 'dur': 0.05, 'cb_sleep': 1.5},
+                        {'kind': 'apply', 'tag': 'sc1', 'dur': 0.05, 'cb_sleep': 1.5}]})
+    return out
+
+
 def plan(tier, seed):
-    n = 40 if tier == 'quick' else 260
-    return [{'lane': 'real', 'seed': seed * 10000 + i, 'timeout': 100} for i in range(n)]
+    n = 38 if tier == 'quick' else 260
+    specs = [{'lane': 'real', 'seed': seed * 10000 + i, 'timeout': 100} for i in range(n)]
+    specs += [{'lane': 'real', 'seed': seed * 10000 + 9000 + k, 'timeout': 130, 'directed': p}
+              for k, p in enumerate(directed(tier))]
+    return specs
 
 
 def work_estimate(p):
     tot, mx, ntasks = 0.0, 0.0, 0
     for j in p['jobs']:
         n = j.get('n', 1)
-        tot += n * j['dur']
-        mx = max(mx, j['dur'])
+        durs = j.get('durs') or [j['dur']] * n
+        tot += sum(durs) + j.get('cb_sleep', 0) * p['nproc']   # callbacks run serially in one thread
+        mx = max(mx, max(durs) * (j.get('chunk') or 1 if j.get('durs') else 1))
         ntasks += n
     est = tot / p['nproc'] + mx
     if p.get('maxtasks'):
@@ -80,7 +110,7 @@ def expected(job):
 
 def run_spec(spec, rec):
     rng = rng_for(spec['seed'], 'c07')
-    p = gen(rng)
+    p = spec.get('directed') or gen(rng)
     est, ntasks = work_estimate(p)
     r = real.run_scenario('vmon.real_pool', 'sc_close_join', p, timeout=est + 45)
     obs, ev = r['obs'], r['events']
